@@ -23,12 +23,15 @@
      de/table.rs  TableMapAccess::next_key_seed:                       wrap (span of the key)
                   TableMapAccess::next_value_seed:                     wrap (value span, else key span), addkey
                   TableMapAccess::variant_seed:                        wrap (span of the key), NO addkey
-     de/array.rs  ArraySeqAccess::next_element_seed:                   nothing
-     de/table_enum.rs  TableEnumDeserializer: its own errors carry spans; newtype_variant_seed and
-                  the elements of a tuple variant: nothing; the variant's key is NOT added
+     de/array.rs  ArraySeqAccess::next_element_seed:                   wrap (span of the element)
+     de/table_enum.rs  TableEnumDeserializer: its own errors carry spans; newtype_variant_seed:
+                  wrap (span of the payload); the elements of a tuple variant go through
+                  ArraySeqAccess; the variant's key is NOT added
                   (known finding C15-de-keypath-omits-enum-variant)
      toml_datetime  Date::deserialize / Time::deserialize: the kind mismatch is raised AFTER
-                  Datetime::deserialize(deserializer) returned, outside every wrapper of that node
+                  Datetime::deserialize(deserializer) returned, outside every wrapper of that node:
+                  it gets its span from the access that handed the node out (next_value_seed,
+                  next_element_seed, newtype_variant_seed, deserialize_option / _newtype_struct)
    `cfg`: deny n = the struct called n is `#[serde(deny_unknown_fields)]`;
           opt_overwrite = the seeded change "deserialize_option sets the span unconditionally". *)
 From TV Require Import Base.Prelude Base.Utf8 Model.Datetime Model.DatetimeStd Model.SerNum Spec.SerdeData Model.De Model.SerdeSpanned.
@@ -146,12 +149,12 @@ Definition key_of_entry {A} (i : nat) (e : entry) (r : lres A) : lres A :=
 Section SeqVisitor.
   Variable de : ty -> stree -> lres sval.
   Variable t : ty.
-  (* Vec<T>: ArraySeqAccess::next_element_seed until the array ends *)
+  (* Vec<T>: ArraySeqAccess::next_element_seed (an error without span gets the element's) until the array ends *)
   Fixpoint seq_elems (xs : list stree) (i : nat) : lres (list sval) :=
     match xs with
     | [] => LOk []
     | x :: xs' =>
-      lbind (under (SIdx i) (de t x)) (fun v => lbind (seq_elems xs' (S i)) (fun vs => LOk (v :: vs)))
+      lbind (under (SIdx i) (wrap (span_of x) (de t x))) (fun v => lbind (seq_elems xs' (S i)) (fun vs => LOk (v :: vs)))
     end.
 End SeqVisitor.
 
@@ -168,7 +171,7 @@ Section Visitors.
       match xs with
       | [] => raise KLength
       | x :: xs' =>
-        lbind (under (SIdx i) (de (proj a) x)) (fun v => lbind (pos_elems l' xs' (S i)) (fun vs => LOk (v :: vs)))
+        lbind (under (SIdx i) (wrap (span_of x) (de (proj a) x))) (fun v => lbind (pos_elems l' xs' (S i)) (fun vs => LOk (v :: vs)))
       end
     end.
 End Visitors.
@@ -262,7 +265,8 @@ Section PosVisitor.
       match xs with
       | [] => raise KLength
       | (i, e) :: xs' =>
-        lbind (under (SPos i (en_key e)) (de t (en_val e))) (fun v => lbind (pos_entries ts' xs') (fun vs => LOk (v :: vs)))
+        lbind (under (SPos i (en_key e)) (wrap (span_of (en_val e)) (de t (en_val e))))
+              (fun v => lbind (pos_entries ts' xs') (fun vs => LOk (v :: vs)))
       end
     end.
 End PosVisitor.
@@ -348,12 +352,12 @@ Section DeLoc.
   with de_payload (var : variant) (y : stree) {struct var} : lres sval :=     (* TableEnumDeserializer *)
     match var with
     | VUnit => if sempty_container y then LOk SUnit else raise_at KOther (span_of y)
-    | VNewtype t => de_loc t y                                    (* newtype_variant_seed: nothing added *)
+    | VNewtype t => wrap (span_of y) (de_loc t y)                 (* newtype_variant_seed: the payload's span, no key *)
     | VTuple ts =>
       match y with
       | NArr asp xs =>
         if Nat.eqb (length xs) (length ts)
-        then lmap SSeq (pos_elems de_loc (fun t' => t') ts xs 0)  (* ArrayDeserializer directly: no wrapper *)
+        then lmap SSeq (pos_elems de_loc (fun t' => t') ts xs 0)  (* ArrayDeserializer directly: ArraySeqAccess *)
         else raise_at KLength asp
       | NTab tsp es =>
         lbind (index_entries 0 0 es) (fun xs =>
